@@ -27,7 +27,9 @@ EXPLANATION = ("The same k symbolic chunks (arbitrary distinct grid positions, s
                "images byte-identical, then the package's own reader (fresh accessor) must return each payload, and for an "
                "arbitrary unstored position must raise or return zero bytes. Harness 'step' proves, for symbolic bit "
                "counts and an arbitrary counter, that MiniShard.next_cmc enumerates exactly the identifiers of the "
-               "minishard in increasing order (one inductive step covering histories of any length).")
+               "minishard in increasing order (one inductive step covering histories of any length). Harness 'orders' stores "
+               "all chunks of one minishard (symbolic payloads) in an order chosen by case split over every permutation, "
+               "with either buffering strategy, and compares the files with those of the raster order.")
 BOUNDS = {"quick": "grids up to 3x4x2, bit triples as C04, raw+gzip, k=2 chunks: both orders x both strategies; full grids: raster "
                    "vs reversed vs shuffled(VERIF_SEED) order; all 5 chunks of one minishard in each of the 120 store orders x both strategies; step: 48 (minishard,shard,preshift) triples in [0,21]^3 (10 fixed + 38 drawn with VERIF_SEED), counter "
                    "and shard/minishard fields symbolic 64-bit",
